@@ -117,6 +117,7 @@ var numProbes = []string{"-2", "-1.1", "-1.01", "-1", "-0.99", "-0.9", "-0.1", "
 	"1.0", "1e0", "10e-1", "0.5e1", "-0.0", "5e-1", "1E1", "0.50", "100e-1"}
 var strProbes = []string{`""`, `"a"`, `"ab"`, `"abc"`, `"abcd"`, `"b"`, `"ba"`, `"bc"`, `"xbc"`, `"A"`, `"\n"`, `"\""`, `"a"`, `"aXc"`, `"é"`, `"a\nc"`, `"1"`, `"true"`, `"null"`, `"a b"`, `"\\"`, `"\/"`,
 	// an unpaired surrogate escape followed by an ordinary \u escape: the second escape is a character of its own
+	`"\"abc\""`, `"\"\""`, `"\"a\""`, `"\"ab"`, `"a\"\"b"`, `"\\\"a\\\""`,
 	`"\ud83d\u0062"`, `"\udc00\u0061"`, `"a\ud83d\u0062"`, `"\ud83d\ude00b"`, `"\u0061\u0062"`}
 var otherProbes = []*gen.JV{gen.JNull(), gen.JBool("true"), gen.JBool("false"), gen.JObj(), gen.JArr(), gen.JArr(gen.JInt("1")), gen.JObj(gen.Member{Key: "a", Val: gen.JInt("1")})}
 
